@@ -13,6 +13,7 @@ require (
 	example.com/c20bundle v0.0.0
 	example.com/chk v0.0.0
 	example.com/c19b v0.0.0
+	example.com/c03b v0.0.0
 	example.com/io v0.0.0
 	example.com/rb1 v0.0.0
 	example.com/rb2 v0.0.0
@@ -62,3 +63,6 @@ replace example.com/wb4 => ./fake/wb4
 
 // rule bundle for the C19 scenarios
 replace example.com/c19b => ./fake/c19bundle
+
+// rule bundle with At() / Suggest() rules for the C03 engine-level runs
+replace example.com/c03b => ./fake/c03bundle
